@@ -1955,8 +1955,7 @@ static bool ts_parser__balance_subtree(TSParser *self) {
   // cancellation, we don't want to clear the tree stack.
   if (!self->canceled_balancing) {
     array_clear(&self->tree_pool.tree_stack);
-    if (ts_subtree_child_count(finished_tree) > 0) TS_VERIF_YIELD(5, &finished_tree.ptr->ref_count);
-    if (ts_subtree_child_count(finished_tree) > 0 && finished_tree.ptr->ref_count == 1) {
+    if (ts_subtree_child_count(finished_tree) > 0 && TS_OWNERSHIP_READ(&finished_tree.ptr->ref_count) == 1) {
       array_push(&self->tree_pool.tree_stack, ts_subtree_to_mut_unsafe(finished_tree));
     }
   }
@@ -1996,8 +1995,7 @@ static bool ts_parser__balance_subtree(TSParser *self) {
 
     for (uint32_t i = 0; i < tree.ptr->child_count; i++) {
       Subtree child = ts_subtree_children(tree)[i];
-      if (ts_subtree_child_count(child) > 0) TS_VERIF_YIELD(5, &child.ptr->ref_count);
-      if (ts_subtree_child_count(child) > 0 && child.ptr->ref_count == 1) {
+      if (ts_subtree_child_count(child) > 0 && TS_OWNERSHIP_READ(&child.ptr->ref_count) == 1) {
         array_push(&self->tree_pool.tree_stack, ts_subtree_to_mut_unsafe(child));
       }
     }
